@@ -1199,6 +1199,11 @@ impl<D: Distance> Writer<D> {
     }
 
     fn delete_tree(&self, wtxn: &mut RwTxn, node: NodeId) -> Result<()> {
+        // The leafs are shared between the trees, we MUST NOT delete them. We must not even look
+        // them up: an item deleted in the same batch is already gone from the database.
+        if node.mode == NodeMode::Item {
+            return Ok(());
+        }
         let key = Key::new(self.index, node);
         match self.database.get(wtxn, &key)?.ok_or(Error::missing_key(key))? {
             // the leafs are shared between the trees, we MUST NOT delete them.
